@@ -203,6 +203,8 @@ def skeleton_of(em: EmissionModel, e: Emission) -> Skeleton | None:
         return render(Code((str(v.value),)))
     if isinstance(v, NumV):
         return render(Code((Part('num', v),)))
+    if isinstance(v, GroupStr):
+        return render(Code((Part('raw', v),)))
     return None
 
 
